@@ -157,6 +157,33 @@ def run_verus(unit, expanded, must_fail=False, sub="common"):
             "smt_s": smt_total, "wall_s": wall, "cmd": " ".join(cmd), "text": text}
 
 
+def scan_uncovered(expanded, results):
+    """C11: which public functions are under a Verus contract, exercised by a Kani harness only, or not covered."""
+    idx = get_index(expanded)
+    under = set()
+    for r in results:
+        for row in r["table"]:
+            if not row.get("assumed") and not (row.get("sig_only") and not row.get("assumed")):
+                under.add(row["item"].split("::")[-1].replace("const ", ""))
+    ksrc = ""
+    kdir = os.path.join(ROOT, "kani", "src")
+    for fn in os.listdir(kdir):
+        ksrc += open(os.path.join(kdir, fn)).read()
+    names = []
+    for anchor in ("impl<Frac> FixedI32<Frac>", "impl<Frac: LeEqU32> FixedI32<Frac>", "impl<Frac> FixedU32<Frac>", "impl<Frac: LeEqU32> FixedU32<Frac>",
+                   "pub mod transcendental", "impl<F: Fixed> Wrapping<F>"):
+        for c in idx.containers(anchor):
+            for f in c.children:
+                if f.kind == "fn" and idx.toks[f.t0].s == "pub":
+                    names.append(f.name)
+    names = sorted(set(names))
+    verus = [n for n in names if n in under]
+    kani = [n for n in names if n not in under and re.search(r"\b%s\b" % re.escape(n), ksrc)]
+    unc = [n for n in names if n not in under and n not in kani]
+    return {"rule": "public fns of the 32-bit families (representatives of the macro bodies), Wrapping and transcendental",
+            "under_verus_contract": len(verus), "exercised_by_kani_harness_only": kani, "not_covered": unc}
+
+
 def scan_trusted(text):
     """List every assumption construct in a generated unit (DESIGN §3.8)."""
     out = []
@@ -177,7 +204,7 @@ def load_known():
 
 
 def write_replay(pid, n, payload):
-    d = os.path.join(ROOT, "replay")
+    d = os.environ.get("VERIF_REPLAY_DIR", os.path.join(ROOT, "replay"))
     os.makedirs(d, exist_ok=True)
     path = os.path.join(d, "%s-%d.json" % (pid, n))
     with open(path, "w") as f:
@@ -254,7 +281,7 @@ def check_property(pid, tier, seed):
     # vacuity: every contracted function of a must-fail twin must be rejected
     twins_generated = twins_rejected = 0
     for r in mf_results:
-        rejected = set(fl["item"] for fl in r["failures"] if fl["item"])
+        rejected = set(fl["item"] for fl in r["failures"] if fl["item"] and "assertion failed" in fl["message"] and "assert(false)" in fl.get("text", ""))
         for row in r["table"]:
             if row.get("sig_only"):
                 continue
@@ -263,7 +290,7 @@ def check_property(pid, tier, seed):
             if row.get("notwin"):
                 continue
             twins_generated += 1
-            if (row["item"] + " [twin]") in rejected or (not row.get("has_twin") and row["item"] in rejected):
+            if row["item"] in rejected:
                 twins_rejected += 1
             else:
                 undecided.append("vacuity guard: `ensures false` twin of %s/%s was NOT rejected" % (r["unit"], row["item"]))
@@ -271,8 +298,13 @@ def check_property(pid, tier, seed):
         obligations.append({"name": "kani/" + k["harness"], "backend": "kani", "classes": k.get("classes", ["functional", "panic"]),
                             "checks": k.get("checks", 0)})
         if k["status"] == "FAILED":
-            failed.append({"unit": "kani", "item": k["harness"], "class": "functional", "message": k.get("summary", "")[:400],
-                           "rendered": k.get("failed_checks", "")[:3000], "line": 0, "text": "", "kani": k})
+            owned = k.get("classes", ["functional", "panic"])
+            hit = [c for c in k.get("failed_classes", ["functional"]) if c in owned]
+            if hit:
+                failed.append({"unit": "kani", "item": k["harness"], "class": "+".join(hit), "message": k.get("summary", "")[:400],
+                               "rendered": k.get("failed_checks", "")[:3000], "line": 0, "text": "", "kani": k})
+            else:
+                log("note: harness %s fails only in classes %s, which property %s does not own" % (k["harness"], k.get("failed_classes"), pid))
         elif k["status"] != "SUCCESS":
             undecided.append("kani harness %s: %s" % (k["harness"], k["status"]))
         for s in k.get("stubs", []):
@@ -311,6 +343,9 @@ def check_property(pid, tier, seed):
             undecided.append("counterexample of %s did not reproduce on the real code (harness fault?)" % fl["item"])
         else:
             violations.append("VIOLATION property=%s replay=%s no-failing-input-found" % (pid, path))
+    uncovered = None
+    if spec.get("scan_uncovered"):
+        uncovered = scan_uncovered(expanded, results)
     wall = time.time() - t0
     discharged = n_obl - len(set((f["unit"], f["item"]) for f in failed))
     # ---- evidence
@@ -340,11 +375,13 @@ def check_property(pid, tier, seed):
             "samples": [o["name"] for o in obligations[:12]],
             "kani_harnesses": [{k2: k[k2] for k2 in ("harness", "status", "checks", "time_s") if k2 in k} for k in kani_res],
             "expansion_s": round(exp_s, 1),
+            "public_fn_coverage": uncovered,
         },
         "assumptions": PROPS.COMMON_ASSUMPTIONS + spec.get("assumptions", []),
     }
-    os.makedirs(os.path.join(ROOT, "evidence"), exist_ok=True)
-    with open(os.path.join(ROOT, "evidence", pid + ".json"), "w") as f:
+    evdir = os.environ.get("VERIF_EVIDENCE_DIR", os.path.join(ROOT, "evidence"))
+    os.makedirs(evdir, exist_ok=True)
+    with open(os.path.join(evdir, pid + ".json"), "w") as f:
         json.dump(ev, f, indent=1)
     for o in obligations:
         bad = any(f["item"] == o["name"].split("/", 1)[1] for f in failed)
